@@ -125,6 +125,10 @@ func c03ScenarioOpt(r *rand.Rand, conflicts bool, c11 bool) (*txWorld, string, e
 		case k < 85:
 			w.pumpTxs()
 			fp += "p"
+		case c11 && k < 89:
+			// one iteration of the delay checker with every safe delay elapsed
+			w.pumpTxs()
+			fp += fmt.Sprintf("K%d", w.checkerStep())
 		case k < 93 || (c11 && k < 100 && r.Intn(2) == 0):
 			w.pumpTxs()
 			if c11 && r.Intn(2) == 0 {
@@ -157,6 +161,9 @@ func c03ScenarioOpt(r *rand.Rand, conflicts bool, c11 bool) (*txWorld, string, e
 					delete(unconf, t)
 				}
 				fp += fmt.Sprintf("SO%d", len(in))
+				if r.Intn(2) == 0 {
+					fp += fmt.Sprintf("K%d", w.checkerStep())
+				}
 				continue
 			}
 			if c11 {
@@ -166,6 +173,9 @@ func c03ScenarioOpt(r *rand.Rand, conflicts bool, c11 bool) (*txWorld, string, e
 				return w, fp, nil
 			}
 			fp += "S"
+			if c11 && r.Intn(2) == 0 {
+				fp += fmt.Sprintf("K%d", w.checkerStep())
+			}
 		default:
 			w.pumpTxs()
 			fp += "e"
@@ -218,27 +228,30 @@ func TestVerif_C03(t *testing.T) {
 		if !verifkit.Mine(ci) {
 			continue
 		}
-		r := verifkit.Rand("C03", ci)
-		w, fp, err := c03Scenario(r, ci%3 == 2)
-		if err != nil {
-			rep.Inconc(ci, err.Error())
-			continue
-		}
-		w.checkC03(2)
-		for _, f := range w.finds {
-			if f.prop != "C03" {
-				rep.Event("other_property_findings:"+f.sig, 1)
-				continue
+		ci := ci
+		verifkit.RunCase(rep, ci, func() {
+			r := verifkit.Rand("C03", ci)
+			w, fp, err := c03Scenario(r, ci%3 == 2)
+			if err != nil {
+				rep.Inconc(ci, err.Error())
+				return
 			}
-			rep.Finding(ci, f.sig, f.detail, w.witness())
-		}
-		rep.Event("histories", 1)
-		rep.Event("transactions", int64(len(w.txs)))
-		rep.Event("callbacks", int64(len(w.e.log.snapshot())))
-		rep.Case(fp, len(fp) > 0 && (containsAny(fp, "BSR")))
-		if rep.WantSample() {
-			rep.Sample(w.witness())
-		}
+			w.checkC03(2)
+			for _, f := range w.finds {
+				if f.prop != "C03" {
+					rep.Event("other_property_findings:"+f.sig, 1)
+					continue
+				}
+				rep.Finding(ci, f.sig, f.detail, w.witness())
+			}
+			rep.Event("histories", 1)
+			rep.Event("transactions", int64(len(w.txs)))
+			rep.Event("callbacks", int64(len(w.e.log.snapshot())))
+			rep.Case(fp, len(fp) > 0 && (containsAny(fp, "BSR")))
+			if rep.WantSample() {
+				rep.Sample(w.witness())
+			}
+		})
 	}
 }
 
